@@ -1,34 +1,6 @@
 #![allow(dead_code)]
-mod build;
-mod engine;
-mod gens;
-mod guard;
-mod refsem;
-mod spec;
-
-mod p01;
-mod p02;
-mod p03;
-mod p04;
-mod p05;
-mod p06;
-mod p07;
-mod p08;
-mod p09;
-mod p10;
-mod p11;
-mod p12;
-mod p13;
-mod p14;
-mod p15;
-mod p16;
-mod p17;
-mod p18;
-mod p19;
-mod p20;
-mod csg;
-
-use engine::*;
+use fv::engine::*;
+use fv::*;
 use std::path::PathBuf;
 
 macro_rules! for_prop {
